@@ -25,8 +25,19 @@ package util
 //@   property C20
 //@   requires c != nil && isptr(m, types.Packet) && asptr(m, types.Packet) != nil
 //@   modifies *asptr(m, types.Packet), type types.Stat, array byte, array string, maps string []byte, global bufPool, type []byte
-//@   effects ReadFullRes UnmarshalRes
+//@   effects ReadFullRes UnmarshalRes Buffered
+// nothing is allocated on the strength of the 4-byte length prefix alone beyond a fixed bound:
+// with four bytes a peer must not be able to make the receiver reserve gigabytes
+//@   at call make: allocation_not_sized_by_unread_length: arg0 <= 16777216
 //@   ensures error_only_from_io_or_decode: result != nil ==> (cnt(ReadFullRes) > old(cnt(ReadFullRes)) && arg(ReadFullRes, 1) != nil) || (cnt(UnmarshalRes) > old(cnt(UnmarshalRes)) && arg(UnmarshalRes, 0) != nil)
 //@   ensures header_first: cnt(ReadFullRes) >= old(cnt(ReadFullRes)) + 1
 //@   ensures empty_frame_untouched: cnt(UnmarshalRes) == old(cnt(UnmarshalRes)) ==> asptr(m, types.Packet).Type == old(asptr(m, types.Packet).Type) && asptr(m, types.Packet).ID == old(asptr(m, types.Packet).ID) && asptr(m, types.Packet).Stat == old(asptr(m, types.Packet).Stat) && len(asptr(m, types.Packet).Data) == old(len(asptr(m, types.Packet).Data))
 //@   at call unmarshaler.Unmarshal: exact_frame: len(buf) == int(length) && length != 0 && cnt(ReadFullRes) == old(cnt(ReadFullRes)) + 2 && arg(ReadFullRes, 0) == int(length) && arg(ReadFullRes, 1) == nil
+
+//@ func NewProtoStream
+//@   property C20
+//@   ensures wraps: isptr(result, protoStream) && asptr(result, protoStream) != nil && fresh(asptr(result, protoStream)) && asptr(result, protoStream).Reader == r && asptr(result, protoStream).Writer == w && asptr(result, protoStream).ctx == ctx
+//@ func protoStream.Context
+//@   property C20
+//@   requires c != nil
+//@   ensures result == c.ctx
